@@ -48,6 +48,19 @@ CLAIMED = {
         "Model tied to the real classes on every run: exhaustive over a box of formats x styles x all raw values (compared inside Coq) plus seeded wide cases; the exact-arithmetic spec is also checked directly on the real results.",
    technique="Rocq proof (lia/Z arithmetic) of a Gallina model of resize_fn against an exact-arithmetic specification; correspondence by exhaustive vm_compute cases",
    design_ref="DESIGN.md §6 C19"),
+ "C10": dict(
+   text="Proof for argument binding, operator/comparison dispatch and boolean operators: unbounded theorems C10_bind_agrees (for every signature and every call shape the tracer's binding = the binding rule of the Python language reference, "
+        "rejections included), C10_dispatch_agrees, C10_compare_agrees (tracer value = CPython value or rejected), C10_boolop_truth_value, over Gallina models written after the code; both the spec model (against CPython itself) and the "
+        "code model (against FunctionDefinition.bind_args and the whole tracer end to end) are tied on every run by thousands of generated signatures/calls compared inside Coq. Closures, classes, super(), comprehensions, unpacking etc. have "
+        "no Gallina semantics: for them a grammar-based differential run (same program under CPython and through the tracer) is reported as supporting evidence and failing-input search, never as discharged obligations.",
+   technique="Rocq proof by induction over parameter/argument lists on Gallina models of bind_args and of CPython's binding rule; correspondence by vm_compute; differential testing for the unmodelled constructs",
+   design_ref="DESIGN.md §6 C10, §8"),
+ "C13": dict(
+   text="Proof. Unbounded theorems over ALL sequences of first uses (any order, any length): canonicity (equal parameters -> identical class, different -> distinct), the subclass relation after any history equals the documented lattice, ports are signals, "
+        "unrelated widths/kinds never subclasses, views keep root and qualifier, alias the same cells, and their recorded reference denotes exactly their storage (iteration included); model of the three metaclass __getitem__s and of views written after the code and tied on every run by "
+        "seeded sequences each executed in a fresh interpreter (identity partition, issubclass matrices, MRO, cache keys, view reads/writes compared inside Coq) plus the documented lattice checked directly.",
+   technique="Rocq proof by induction over operation lists with a cache invariant; correspondence by vm_compute on per-interpreter sequences",
+   design_ref="DESIGN.md §6 C13"),
 }
 ALL = ["C%02d" % i for i in range(1, 21)]
 
